@@ -260,4 +260,12 @@ theorem C17_code_atomic (expf : Rat → Rat) (e : Est) (crit : Option CritArg) (
 theorem C17_code_tolerance (expf : Rat → Rat) (a b : PV) (m : MergeFn) :
     BBGen.BitBirch_tolerance expf a b (objOf expf m) = optRatPV m.tolerance? := gen_tolerance expf a b m
 
+/-- code: `BitBirch.reset` (as translated on this run; what it assigns outside the merge configuration — the root, the leaf
+chain, the fitted count — is dropped by the translation) leaves threshold, branching factor and merge function exactly as
+they were, whether or not a tree exists -/
+theorem C17_code_reset_frame (expf : Rat → Rat) (thr bf fn root : PV) (hroot : ∀ e, root ≠ PV.err e) :
+    BBGen.BitBirch_reset expf thr bf fn root = [thr, bf, fn] := by
+  unfold BBGen.BitBirch_reset
+  cases root <;> simp_all [PV.isNone, PV.not, PV.truthy, PV.iteL]
+
 end BB
